@@ -94,7 +94,7 @@ def _result_level_assignments(res_names, obj_ids, prm_ids):
         yield [n if n is not None else next(it) for n in res_names]
 
 
-def judge_alignment(obj, prm, res_obj, res_prm):
+def judge_alignment(obj, prm, res_obj, res_prm, shared_unnamed=False):
     """Compare the returned tables with the property.  Returns a list of (clause, detail); empty = holds.
 
     Clauses: result-indices-differ (reported alone: without a common index there is nothing else to judge),
@@ -104,7 +104,9 @@ def judge_alignment(obj, prm, res_obj, res_prm):
     out = []
     if res_obj["names"] != res_prm["names"] or res_obj["rows"] != res_prm["rows"]:
         return [("result-indices-differ", {"object": [res_obj["names"], res_obj["rows"]], "parameter": [res_prm["names"], res_prm["rows"]]})]
-    oi, pi = level_ids(obj["names"], "obj"), level_ids(prm["names"], "prm")
+    # shared_unnamed: the second reading of "unnamed levels" - the k-th unnamed level of the object and the k-th unnamed
+    # level of the parameter are the same level (the property does not say which reading holds)
+    oi, pi = level_ids(obj["names"], "shared" if shared_unnamed else "obj"), level_ids(prm["names"], "shared" if shared_unnamed else "prm")
     for res, tag in ((res_obj, "obj"), (res_prm, "prm")):
         assignments = list(_result_level_assignments(res["names"], oi, pi))
         if not assignments:
